@@ -8,6 +8,57 @@
 use vp::common::*;
 use vp::{props, refimpl};
 
+/// build profile of this binary: "checked" (overflow checks and debug assertions on) or "plain"
+const PROFILE: &str = if cfg!(debug_assertions) { "checked" } else { "plain" };
+thread_local! { static PLAIN_CHILD: bool = std::env::var("VP_PLAIN_CHILD").is_ok(); }
+
+fn sibling_binary(profile: &str) -> Option<std::path::PathBuf> {
+    let me = std::env::current_exe().ok()?;
+    let dir = me.parent()?.parent()?;
+    let p = dir.join(if profile == "plain" { "plain" } else { "release" }).join("vp");
+    p.exists().then_some(p)
+}
+
+/// Runs the same check in the plain-profile binary (half the cases). Returns (summary for the
+/// evidence file, lines to relay: failure records and VIOLATION lines, exit status).
+fn second_profile(id: &str, tier_arg: &str, tier: Tier, seed: u64) -> (serde_json::Value, Vec<String>, i32) {
+    let Some(bin) = sibling_binary("plain") else {
+        return (serde_json::json!({"profile": "plain", "ran": false, "why": "binary not built"}), vec![], 2);
+    };
+    let scale: f64 = std::env::var("VERIF_SCALE").ok().and_then(|s| s.parse().ok()).unwrap_or(1.0);
+    let share = if tier == Tier::Quick { 0.5 } else { 0.25 };
+    let out = std::process::Command::new(&bin)
+        .arg(id)
+        .arg(tier_arg)
+        .env("VP_PLAIN_CHILD", "1")
+        .env("VERIF_NO_FUZZ", "1")
+        .env("VERIF_SEED", seed.to_string())
+        .env("VERIF_SCALE", format!("{}", scale * share))
+        .output();
+    let Ok(out) = out else {
+        return (serde_json::json!({"profile": "plain", "ran": false, "why": "could not start"}), vec![], 2);
+    };
+    let text = String::from_utf8_lossy(&out.stdout);
+    let mut summary = serde_json::json!({"profile": "plain", "ran": true});
+    let mut lines = vec![];
+    for l in text.lines() {
+        if let Some(j) = l.strip_prefix("PLAIN-SUMMARY ") {
+            if let Ok(v) = serde_json::from_str::<serde_json::Value>(j) {
+                summary = v;
+                summary["profile"] = "plain: opt-level 3, overflow-checks off, debug-assertions off".into();
+                summary["share_of_cases"] = share.into();
+            }
+        } else if l.starts_with("VIOLATION") || l.starts_with("  [") {
+            lines.push(if l.starts_with("  [") { format!("{} (plain profile)", l) } else { l.to_string() });
+        }
+    }
+    let err = String::from_utf8_lossy(&out.stderr);
+    for l in err.lines().filter(|l| l.starts_with("INCONCLUSIVE")) {
+        eprintln!("{} (plain profile)", l);
+    }
+    (summary, lines, out.status.code().unwrap_or(-1))
+}
+
 fn usage() -> ! {
     eprintln!("usage: vp <C01..C20> <quick|thorough|fuzz> | vp <ID> --replay <file> | vp <ID> --list-checks | vp <ID> --save-corpus [n]");
     std::process::exit(2);
@@ -41,6 +92,19 @@ fn main() {
             eprintln!("cannot parse {}: {}", args[3], e);
             std::process::exit(2);
         });
+        // a case that failed in the other build profile is replayed by that profile's binary
+        if rf.profile != PROFILE {
+            match sibling_binary(&rf.profile) {
+                Some(bin) => {
+                    let st = std::process::Command::new(bin).args(&args[1..]).status();
+                    std::process::exit(st.ok().and_then(|s| s.code()).unwrap_or(2));
+                }
+                None => {
+                    eprintln!("INCONCLUSIVE: no vp binary of profile '{}' beside this one", rf.profile);
+                    std::process::exit(2);
+                }
+            }
+        }
         // strict mode: known findings are not tolerated in a replay
         let mut st = Stats::new(vec![]);
         // agent histories depend on per-instance hash-map order: repeat the case
@@ -134,7 +198,42 @@ fn main() {
     }
 
     let violations = std::mem::take(&mut *ctx.violations.lock().unwrap());
-    let n = violations.len();
+    let mut n = violations.len();
+    if PLAIN_CHILD.with(|c| *c) {
+        // second-profile child: no evidence file of its own, a summary line for the parent instead
+        let st = ctx.stats.lock().unwrap();
+        println!(
+            "PLAIN-SUMMARY {}",
+            serde_json::json!({"evaluations": st.evaluations, "distinct_nontrivial": st.nontrivial.len(),
+                "known_finding_hits": st.known_hits, "wall_s": ctx.started.elapsed().as_secs_f64(), "violations": n,
+                "inconclusive": INCONCLUSIVE.load(std::sync::atomic::Ordering::SeqCst)})
+        );
+        drop(st);
+        for v in &violations {
+            let path = write_replay(&id, v);
+            println!("  [{}] {}: {}", v.fail.sig, v.check, v.fail.msg);
+            println!("VIOLATION property={} replay={}", id, path.display());
+        }
+        std::process::exit(if n > 0 { 1 } else if INCONCLUSIVE.load(std::sync::atomic::Ordering::SeqCst) { 2 } else { 0 });
+    }
+    // the same checks once more in the other build profile (optimised, no debug assertions, no
+    // overflow checks): what a release build of the library does, which neither `cargo test` nor
+    // the checked profile above shows
+    let mut relayed: Vec<String> = vec![];
+    if n == 0 && std::env::var("VERIF_NO_PLAIN").is_err() {
+        let (summary, lines, rc) = second_profile(&id, &args[2], tier, seed);
+        n += lines.iter().filter(|l| l.starts_with("VIOLATION")).count();
+        relayed = lines;
+        if rc >= 2 || rc < 0 {
+            ctx.note(format!("second profile run ended with status {} (inconclusive)", rc));
+            INCONCLUSIVE.store(true, std::sync::atomic::Ordering::SeqCst);
+        }
+        if let Some(o) = meta.extra.as_object_mut() {
+            o.insert("second_profile".into(), summary);
+        } else {
+            meta.extra = serde_json::json!({ "second_profile": summary });
+        }
+    }
     write_evidence(&ctx, meta, n);
 
     // known findings: one line per listed open finding of this property
@@ -156,6 +255,9 @@ fn main() {
             st.nontrivial.len(),
             ctx.started.elapsed().as_secs_f64()
         );
+    }
+    for l in &relayed {
+        println!("{}", l);
     }
     if n > 0 {
         for v in &violations {
